@@ -1234,9 +1234,19 @@ impl VM {
         }
     }
 
+    /// Integer arithmetic that overflows or divides by zero is an error, not a crash.
+    fn checked_int(result: Option<i64>, what: &str, pos: &Position) -> Result<i64, Error> {
+        result.ok_or_else(|| {
+            Error::new(
+                format!("Integer {} overflowed or divided by zero", what).into(),
+                pos.clone(),
+            )
+        })
+    }
+
     fn mul(&self, left: &Value, right: &Value, pos: &Position) -> Result<Primitive, Error> {
         Ok(match (left, right) {
-            (P(Int(i)), P(Int(ii))) => Int(i * ii),
+            (P(Int(i)), P(Int(ii))) => Int(Self::checked_int(i.checked_mul(*ii), "multiplication", pos)?),
             (P(Float(f)), P(Float(ff))) => Float(f * ff),
             _ => {
                 return Err(Error::new(
@@ -1249,7 +1259,7 @@ impl VM {
 
     fn div(&self, left: &Value, right: &Value, pos: &Position) -> Result<Primitive, Error> {
         Ok(match (left, right) {
-            (P(Int(i)), P(Int(ii))) => Int(i / ii),
+            (P(Int(i)), P(Int(ii))) => Int(Self::checked_int(i.checked_div(*ii), "division", pos)?),
             (P(Float(f)), P(Float(ff))) => Float(f / ff),
             _ => {
                 return Err(Error::new(
@@ -1262,7 +1272,7 @@ impl VM {
 
     fn sub(&self, left: &Value, right: &Value, pos: &Position) -> Result<Primitive, Error> {
         Ok(match (left, right) {
-            (P(Int(i)), Value::P(Int(ii))) => Int(i - ii),
+            (P(Int(i)), Value::P(Int(ii))) => Int(Self::checked_int(i.checked_sub(*ii), "subtraction", pos)?),
             (P(Float(f)), Value::P(Float(ff))) => Float(f - ff),
             _ => {
                 return Err(Error::new(
@@ -1275,7 +1285,7 @@ impl VM {
 
     fn modulus(&self, left: &Value, right: &Value, pos: &Position) -> Result<Primitive, Error> {
         Ok(match (left, right) {
-            (P(Int(i)), Value::P(Int(ii))) => Int(i % ii),
+            (P(Int(i)), Value::P(Int(ii))) => Int(Self::checked_int(i.checked_rem(*ii), "modulus", pos)?),
             (P(Float(f)), Value::P(Float(ff))) => Float(f % ff),
             _ => {
                 return Err(Error::new(
@@ -1288,7 +1298,7 @@ impl VM {
 
     fn add(&self, left: &Value, right: &Value, pos: &Position) -> Result<Value, Error> {
         Ok(match (left, right) {
-            (P(Int(i)), Value::P(Int(ii))) => P(Int(i + ii)),
+            (P(Int(i)), Value::P(Int(ii))) => P(Int(Self::checked_int(i.checked_add(*ii), "addition", pos)?)),
             (P(Float(f)), Value::P(Float(ff))) => P(Float(f + ff)),
             (P(Str(s)), Value::P(Str(ss))) => {
                 let mut ns = String::new();
